@@ -108,6 +108,7 @@ type Exec struct {
 	PruneIf   bool // ask the solver at every symbolic branch whether each side is feasible
 	Deadline  time.Time
 	MaxTerms  int
+	MaxIters  int // cap for loops whose continuation is decided concretely
 
 	Obls     []Obligation
 	Sides    []SideObl
@@ -152,7 +153,7 @@ func NewExec(prog *ssa.Program, pkg *ssa.Package, mode string) *Exec {
 	e := &Exec{S: s, Prog: prog, Pkg: pkg,
 		objType: map[int]types.Type{}, globals: map[*ssa.Global]int{}, libGlobals: map[int]bool{}, MaxSymLen: 16,
 		inputBy: map[string]*Term{}, axiomSeen: map[string]bool{}, ufSites: map[string][]*Term{},
-		UFUsed: map[string]int{}, Known: map[string]bool{}, Unwind: 40, MaxTerms: 3000000,
+		UFUsed: map[string]int{}, Known: map[string]bool{}, Unwind: 40, MaxTerms: 3000000, MaxIters: 200000,
 		finfo: map[*ssa.Function]*FuncInfo{}, FuncsSeen: map[string]string{}, Stubs: map[string]int{},
 		FloatSites: map[string]string{}, LemmaPoints: map[string][]float64{}, Tags: map[int]string{}}
 	switch mode {
@@ -697,7 +698,7 @@ func (e *Exec) runLoop(fr *frame, L *Loop) {
 				symIters++
 			}
 			delete(fr.symExit, L)
-			if symIters > e.Unwind || iter > 200000 {
+			if symIters > e.Unwind || iter > e.MaxIters {
 				// unwinding obligation: continuing must be infeasible
 				e.Unwinds = append(e.Unwinds, SideObl{Kind: "unwind", Guard: hg, Cond: e.S.False,
 					Where: fmt.Sprintf("%s loop@%s after %d iterations", fr.fn.Name(), e.pos(firstPos(L.Header)), iter)})
